@@ -239,7 +239,8 @@ class Info:
             # the condition itself, not the way the library learnt of it: the window is full when this attempt ended
             b = cfg["budget"]
             # (a grant aged exactly window_s sits on a float-rounding boundary off the dyadic grid: counted as live here)
-            live = sum(c for (sq, t, c) in grants if sq < a.end["seq"] and a.end["t"] - t <= b["window_us"])
+            ref = post[-1] if post else a.end     # up to the moment the stop was reported (another consumer may act in between)
+            live = sum(c for (sq, t, c) in grants if sq <= ref["seq"] and ref["t"] - t <= b["window_us"])
             if live + 1 > b["max"]:
                 holds.add("BUDGET_EXHAUSTED")
         if self.first_true is not None or self.decision == "A" or a.kind == "abort":
